@@ -682,6 +682,20 @@ func TestC01(t *testing.T) {
 		}
 	}
 
+	// a List overlapping several writes of another client returns the contents at one instant (parked mid-walk)
+	if os.Getenv("VERIF_REPLAY") == "" {
+		for i, sc := range listSnapshotCases() {
+			for range tier(1, 5) {
+				for _, p := range runListSnapshot(t, sc) {
+					rep.violateKey(i, strings.SplitN(p, ":", 2)[0], p, map[string]any{"list_snapshot": sc})
+				}
+			}
+
+			rep.count(fmt.Sprint("listsnap", sc), true)
+			rep.hit("list_snapshot:" + sc.Handle)
+		}
+	}
+
 	rep.CorrIsSpec = true
 	rep.Assumptions = append(rep.Assumptions, "the collection mutex makes each operation body atomic (sampled by the concurrent histories, assumed by the linearizability theorem)")
 	rep.write(t, dir)
